@@ -668,6 +668,15 @@ func ruleTAB3(w *World) []Ob {
 			}
 			call, ok := c.(*ssa.Call)
 			if !ok {
+				// a defensive nil guard on the receiver or the node: not part of the decision for real nodes
+				if tv, nonNil, isNil := nilTest(g.Cond, g.Pol); isNil {
+					if _, isPrm := stripConv(tv).(*ssa.Parameter); isPrm {
+						if !nonNil {
+							gs = append(gs, "nilguard")
+						}
+						continue
+					}
+				}
 				gs = append(gs, "other:"+describeValue(c))
 				continue
 			}
@@ -709,6 +718,9 @@ func ruleTAB3(w *World) []Ob {
 				suffixGuard = true
 			}
 		} else {
+			if strings.Contains(key, "nilguard") {
+				return // `return false` for a nil receiver / node
+			}
 			nFalse++
 			switch key {
 			case "hasChild=true":
